@@ -1,8 +1,9 @@
 #!/bin/bash
 # applies every seeded (sub-agent) change to /repo, runs the check of the property it breaks, expects exit 1; reverts.
-cd /repo || exit 2
+# developer aid: VERIF_REPO=<scratch worktree> SEEDED_GLOB='S1[0-4]*' runs a slice against a scratch copy (several slices in parallel)
+cd ${VERIF_REPO:-/repo} || exit 2
 bad=0
-for d in /verif/seeded/*/; do
+for d in /verif/seeded/${SEEDED_GLOB:-*}/; do
   id=$(basename $d); prop=$(python3 -c "import json;print(json.load(open('$d/meta.json'))['property'])" 2>/dev/null)
   expected=$(python3 -c "import json;print(json.load(open('$d/meta.json')).get('expected','caught'))" 2>/dev/null)
   git apply $d/patch.diff || { echo "cannot apply $id"; bad=1; continue; }
